@@ -35,6 +35,8 @@ func execC10X(caseText string) (string, bool) {
 		return execQLineX(toks)
 	case "tbl":
 		return execTbl(toks), false
+	case "X":
+		return execXLineX(toks)
 	}
 	return "bad-case", false
 }
@@ -1825,5 +1827,7 @@ func genC10(c *Ctx) {
 		text, nonconf := g.randomQ()
 		e.emit(text, nonconf)
 	}
+	// phase 3: spec-only cases for the filters outside the model (stand-alone aligners, delta, rate)
+	genC10X(e, c)
 	e.summary("C10")
 }
